@@ -70,7 +70,7 @@ def case_st(draw, tier):
     steps = []
     for i, p in enumerate(progs):
         steps += [i] * (len(p["ops"]) + 1)
-    order = draw(st.permutations(steps))
+    order = draw(gen.perm_st(steps))
     return {"programs": progs, "order": list(order)}
 
 
